@@ -64,6 +64,10 @@ def check(ctx):
     # temperature-window fields are decoded as written (shared with C06.R4): KROME window syntax, float(field) everywhere
     from .c06 import _r4 as window_rules
     ctx.absorb(window_rules, "R7", only=lambda o: o.outcome != "MISSING")
+    # a record is decoded from the record and the network's own tables only: no cache or memo shared across files / networks
+    # of the process stands between them (shared with C17.R3)
+    from .c17 import discovered_state
+    ctx.absorb(lambda sub: discovered_state(sub, package(sub.tree), "R8"), "R8", only=lambda o: o.outcome != "MISSING")
 
 
 # ------------------------------------------------------------------ R1
@@ -411,6 +415,9 @@ U = "naunet/reactions/umistreaction.py"
 UC = "naunet/reactions/uclchemreaction.py"
 L = "naunet/reactions/leedsreaction.py"
 MUTANTS = [
+    {"name": "pseudo-element-filter-cached-on-class", "edits": [
+        {"file": "naunet/component.py", "old": "class Component:\n", "new": "class Component:\n    _pseudo_names = None\n"},
+        {"file": "naunet/component.py", "old": "        if species_name and species_name not in Species.known_pseudoelements():", "new": "        if Component._pseudo_names is None:\n            Component._pseudo_names = frozenset(Species.known_pseudoelements())\n        if species_name and species_name not in Component._pseudo_names:"}], "rules": ["R8"]},
     {"name": "kida-rlen", "file": K, "old": "rlen = 34", "new": "rlen = 33", "rules": ["R4"]},
     {"name": "kida-tail-one-late", "file": K, "old": "                rlen + plen :\n", "new": "                rlen + plen + 1 :\n", "rules": ["R5"]},
     {"name": "umist-product-slice", "file": U, "old": "for p in rps[2:6]", "new": "for p in rps[2:5]", "rules": ["R3"]},
